@@ -236,6 +236,7 @@ class Engine:
     def new_list(self, p: Path, seq, elem_cname=None, name="list"):
         r = self.alloc(p, self.ct.Other, "container", name)
         p.st.write("elems", r, seq)
+        p.st.write("selems", r, z3.Empty(T.SSeq))
         return VList(r, elem_cname)
 
     def new_set(self, p: Path, elem_cname=None, name="set"):
@@ -814,6 +815,13 @@ class Engine:
 
     # ---- loops ------------------------------------------------------------------
     def loop_spec(self, node) -> LoopSpec:
+        ls = self._loop_spec(node)
+        if not hasattr(self, "_loop_assigned"):
+            self._loop_assigned = {}
+        self._loop_assigned[id(ls)] = self.assigned_names(node)
+        return ls
+
+    def _loop_spec(self, node) -> LoopSpec:
         ordn = self.loop_ord[id(node)]
         ls = None
         if getattr(self, "cur_variant", None):
@@ -887,12 +895,24 @@ class Engine:
             if lhs.eq(rhs):
                 continue
             self.emit(p, "loop", f"{name}/state:{fname}", T.eq(lhs, rhs), meta={"clause": f"loop invariant: heap field {fname}"})
+        # containers allocated during this iteration and not kept anywhere are garbage: the frame does not speak about them
+        kept = set()
+        dead = getattr(self, "_loop_assigned", {}).get(id(ls), set())      # locals (re)assigned by the body are dead at the loop head
+        for n_, v_ in p.env.items():
+            r_ = getattr(v_, "ref", None)
+            if r_ is not None and n_ not in dead:
+                kept.add(r_.get_id())
+        garbage = [r for (r, _c, k) in p.allocs[getattr(self, "_loop_alloc_mark", {}).get(id(ls), 0):]
+                   if k == "container" and r.get_id() not in kept]
         for l in inv.loose:
             old = entry_st._fs(l.fieldname)
             cur = p.st._fs(l.fieldname)
             for sch in l.constraint(lambda *a, cur=cur: cur.read(*a), lambda *a, old=old: old.read(*a), p.st):
                 sk = tuple(T.fresh("sk", s_) for s_ in sch.sorts)
-                self.emit(p, "loop", f"{name}/loose:{l.fieldname}:{sch.name}", sch.fn(*sk),
+                g_ = sch.fn(*sk)
+                if garbage and sk and sk[0].sort().eq(Ref):
+                    g_ = z3.Implies(z3.And(*[sk[0] != gr for gr in garbage]), g_)
+                self.emit(p, "loop", f"{name}/loose:{l.fieldname}:{sch.name}", g_,
                           meta={"clause": f"loop invariant: constraint {sch.name} on field {l.fieldname}"})
 
     def st_For(self, st, p: Path):
@@ -940,6 +960,10 @@ class Engine:
         L.phase = phase
         L.pghost = path.ghost
         L.path = path
+        if phase in ("entry", "assume"):
+            if not hasattr(self, "_loop_alloc_mark"):
+                self._loop_alloc_mark = {}
+            self._loop_alloc_mark[id(ls)] = len(path.allocs)
         return ls.fn(L)
 
     def assume_inv(self, q: Path, inv: LoopInv, entry_st: State):
